@@ -8,3 +8,13 @@ package parse
 //@ func Unit(r)
 //@   trusted
 //@   modifies nothing
+
+// ---- C18: pooled lexers and parsers are handed back exactly once ---------------------------------------------------
+// A Parser owns one pooled lexer and one pooled parser from newParser until reset. reset returns them to the package
+// pools and lets go of them; it must be called on a Parser that still holds both (a second reset would put the same
+// objects into the pools again, and two later parses - possibly on different goroutines - would share them).
+//@ func (p *Parser) reset()
+//@   requires p != nil && p.lexer != nil && p.parser != nil
+//@   opt nosafety
+//@   ensures p.lexer == nil && p.parser == nil
+//@   guard call Put: arg1 != nil
